@@ -95,6 +95,14 @@ template <class TM, class SM> struct Harness {
     rc.rec = nullptr;
     ++c.st.comparisons;
     if ((int)rec.size() != (K + 1) * N) { fail("sample-count", fmt("%zu samples, expected (K+1)*N = %d", rec.size(), (K + 1) * N)); return; }
+    // the executor only decides in which order (or on which thread) the per-segment work runs: a user executor visiting the segments in
+    // descending / even-then-odd order returns the same cost and gradient, bit for bit, and hands the functor the same samples
+    // (seeded change C08-m7: segment start times accumulated inside the per-segment work)
+    for (int ord = 0; ord < 2 && N >= 2; ++ord) { WS we; Eigen::VectorXd ge; std::vector<Sample> rec2; rc.rec = &rec2; const double ce = ord == 0 ? opt.evaluate(x, ge, tc, wc, rc, &we, DescendingExecutor()) : opt.evaluate(x, ge, tc, wc, rc, &we, EvenOddExecutor()); rc.rec = nullptr; ++c.st.comparisons;
+      if (!bits_equal(ce, cost) || ge.size() != g.size() || !bits_equal(ge.data(), g.data(), g.size())) { fail("executor-order", fmt("a user executor visiting the segments in %s order returns cost %.17g, the default serial executor %.17g (or another gradient)", ord == 0 ? "descending" : "even-then-odd", ce, cost)); return; }
+      auto key = [](const Sample &a, const Sample &b) { return a.seg != b.seg ? a.seg < b.seg : a.tg < b.tg; }; std::vector<Sample> r1 = rec, r2 = rec2; std::stable_sort(r1.begin(), r1.end(), key); std::stable_sort(r2.begin(), r2.end(), key);
+      bool same = r1.size() == r2.size(); for (size_t i = 0; same && i < r1.size(); ++i) same = r1[i].seg == r2[i].seg && bits_equal(r1[i].tg, r2[i].tg) && bits_equal(r1[i].t, r2[i].t);
+      if (!same) { fail("executor-order", "the running cost is sampled at other (segment, local time, global time) triples under a user executor"); return; } }
     std::vector<double> T; typename Prob::Mat P; BoundaryConditions<D> bc; decode(x, T, P, bc);
     const Sp &wsp = ws.spline; const auto &C = wsp.getTrajectory().getCoefficients();
     // decoded inputs reached the workspace spline
